@@ -72,8 +72,7 @@ def discharge(ob, timeout_ms=None, second_opinion=True):
         text = ob.smt2()
         for cmd, nm in (
             (["/usr/bin/cvc5", "--tlimit=%d" % timeout_ms], "cvc5-1.0.3"),
-            (["/usr/bin/z3", "-T:%d" % max(1, timeout_ms // 2000)], "z3-4.8.12"),
-        ):
+        ) + (((["/usr/bin/z3", "-T:%d" % max(1, timeout_ms // 2000)], "z3-4.8.12"),) if timeout_ms > 60000 else ()):
             if not os.path.exists(cmd[0]):
                 continue
             rr = _cli(cmd, text, timeout_ms / 1000 + 5)
@@ -95,10 +94,43 @@ def discharge(ob, timeout_ms=None, second_opinion=True):
     return ob
 
 
-def feasible(assumptions, timeout_ms=2000):
-    """Quick branch-feasibility test: False only when proven infeasible."""
+def _has_quant(t):
+    todo, seen = [t], set()
+    while todo:
+        x = todo.pop()
+        if x.get_id() in seen:
+            continue
+        seen.add(x.get_id())
+        if z3.is_quantifier(x):
+            return True
+        todo.extend(x.children())
+    return False
+
+
+_QCACHE: dict = {}
+
+
+def feasible(assumptions, timeout_ms=int(os.environ.get("PYVC_FEAS_MS", "150"))):
+    """Branch-feasibility test used only for pruning: False only when PROVEN infeasible.
+    First the quantifier-free part alone (a weaker set: unsat there is unsat for all), then the
+    full set under a small budget (feasible paths with quantified facts mostly answer `unknown`)."""
+    qf, full = [], False
+    for a in assumptions:
+        k = a.get_id()
+        if k not in _QCACHE:
+            _QCACHE[k] = _has_quant(a)
+        if _QCACHE[k]:
+            full = True
+        else:
+            qf.append(a)
+    s = z3.Solver()
+    s.set("timeout", 2000)
+    s.add(*qf)
+    if s.check() == z3.unsat:
+        return False
+    if not full:
+        return True
     s = z3.Solver()
     s.set("timeout", timeout_ms)
-    for a in assumptions:
-        s.add(a)
+    s.add(*assumptions)
     return s.check() != z3.unsat
